@@ -153,8 +153,11 @@ class TelegramQueue:
             telegram = await self.xknx.telegrams.get()
             # Breaking up queue if None is pushed to the queue
             if telegram is None:
-                await self.outgoing_queue.join()
-                self.xknx.telegrams.task_done()
+                try:
+                    await self.outgoing_queue.join()
+                finally:
+                    # also when `stop()` is cancelled while waiting - the sentinel was taken
+                    self.xknx.telegrams.task_done()
                 if not self.xknx.telegrams.empty():
                     # queued by a device or a callback meanwhile - the sentinel goes
                     # behind them, else they would never be processed and marked done
